@@ -15,6 +15,7 @@ def run(ck):
     tids = gen.Tids()
     progs = walks.walk_programs(ck.seed, 200 if q else 4000, depth=8, tids=tids, salt="walk20")
     progs += fuse.fuse_programs(ck.seed + 1, 80 if q else 1500, tids=tids)
+    progs += fuse.single_group_programs(ck.seed + 1, 120 if q else 2000, tids=tids)
     progs += contract.programs(ck.seed + 1, 80 if q else 1500, "abelian", tids=tids, dtypes=gen.DTYPES, salt="c20a")
     progs += contract.programs(ck.seed + 1, 40 if q else 800, "fermionic", syms=gen.STATIC_SYMS, tids=tids,
                                dtypes=gen.DTYPES, salt="c20f")
